@@ -1,6 +1,8 @@
 import TpmVerif.Model.Tpm12Core
 import TpmVerif.Model.Tpm12Nv
 import TpmVerif.Model.Tpm12Counter
+import TpmVerif.Model.Tpm12Flags
+import TpmVerif.Model.Tpm12Auth
 import TpmVerif.Spec.Tpm12Pcr
 /-!
   C20 — TPM 1.2 core services (PCR extend chain / reset values / locality rules, SHA-1 thread, TIS hash
@@ -1896,4 +1898,334 @@ theorem read_returns_count (s : St) (id : Nat) (hok : (step s (.read id)).2.rc =
   (repeat' split) <;> simp_all [TPM_BAD_COUNTER]
 
 end Ctr
+end TpmVerif.Props.C20
+
+/-!
+  ## Enable / activate / ownership / clear flags (`Model.Tpm12.Flags`) and OIAP/OSAP authorization (`Model.Tpm12.Auth`)
+-/
+namespace TpmVerif.Props.C20
+namespace Fl
+open TpmVerif TpmVerif.Gen.Tpm12 TpmVerif.Model.Tpm12.Flags
+
+/-- case analysis over every `if`/`match` of an unfolded model function -/
+macro "fl_auto" : tactic =>
+  `(tactic| ((repeat' split) <;> (try simp) <;> (repeat' split) <;> simp_all))
+
+/-- is the operation one of the ordinals (everything except Startup, power cycle, suspend/resume)? -/
+def isOrdinal : Op → Bool
+  | .startup _ | .powerCycle | .resume => false
+  | _ => true
+
+theorem commit_rc (s : St) (p : Perm) : (commit s p).2.rc = 0 := by unfold commit; split <;> rfl
+
+/-- **a refused command changes nothing**: whatever the reason (failed state, not started, disabled, deactivated, no owner,
+    no physical presence, wrong HMAC, clear disabled, owner already set ...) the flags, the stored flags and everything
+    else are as before -/
+theorem ordinal_refused_unchanged (s : St) (op : Op) (h : (ordinal s op).2.rc ≠ 0) : (ordinal s op).1 = s := by
+  revert h
+  cases op <;> simp only [ordinal, tscPP, refuse] <;> (repeat' split) <;> simp_all [commit_rc]
+
+theorem audit_rc (r : St × Obs) (op : Op) : (audit r op).2.rc = r.2.rc := by unfold audit; split <;> rfl
+
+theorem audit_of_refused (r : St × Obs) (op : Op) (h : r.2.rc ≠ 0) : audit r op = r := by
+  unfold audit; simp [h]
+
+theorem step_ordinal (s : St) (op : Op) (ho : isOrdinal op = true) : step s op = audit (ordinal (invalidateSaved s) op) op := by
+  cases op <;> first | rfl | (simp [isOrdinal] at ho)
+
+theorem refused_changes_nothing (s : St) (op : Op) (ho : isOrdinal op = true) (h : (step s op).2.rc ≠ 0) :
+    (step s op).1 = invalidateSaved s := by
+  rw [step_ordinal s op ho] at h ⊢
+  have hr : (ordinal (invalidateSaved s) op).2.rc ≠ 0 := by
+    intro h0; apply h; unfold audit; split <;> simp_all
+  rw [audit_of_refused _ _ hr]; exact ordinal_refused_unchanged _ _ hr
+
+/-! ### which commands can change which flag -/
+
+theorem audit_mem (r : St × Obs) (op : Op) : (audit r op).1.mem = r.1.mem ∧
+    (audit r op).1.sc.deactivated = r.1.sc.deactivated ∧ (audit r op).1.sc.disableForceClear = r.1.sc.disableForceClear ∧
+    (audit r op).1.sc.pp = r.1.sc.pp ∧ (audit r op).1.sc.ppLock = r.1.sc.ppLock ∧ (audit r op).1.postInit = r.1.postInit ∧
+    (audit r op).1.failed = r.1.failed := by
+  unfold audit; split <;> simp
+
+theorem invalidateSaved_mem (s : St) : (invalidateSaved s).mem = s.mem ∧ (invalidateSaved s).sc = s.sc ∧
+    (invalidateSaved s).sto = s.sto ∧ (invalidateSaved s).postInit = s.postInit ∧ (invalidateSaved s).failed = s.failed := by
+  unfold invalidateSaved; split <;> simp
+
+theorem checkState_invalidateSaved (s : St) (g : Gate) : checkState (invalidateSaved s) g = checkState s g := by
+  unfold invalidateSaved; split <;> rfl
+
+theorem commit_mem (s : St) (p : Perm) : (commit s p).1.mem = p ∧ (commit s p).1.sc = s.sc := by
+  unfold commit; split <;> simp_all
+
+theorem step_mem (s : St) (op : Op) : (step s op).1.mem =
+    match op with
+    | .startup _ => s.mem
+    | .powerCycle => s.sto
+    | .resume => s.mem
+    | op => (ordinal (invalidateSaved s) op).1.mem := by
+  cases op <;> simp only [step, (audit_mem _ _).1]
+  · simp only [startup]; (repeat' split) <;> rfl
+  · rfl
+  · rfl
+
+macro "perm_only_by" s:ident op:ident : tactic =>
+  `(tactic| (rw [step_mem $s $op]; cases $op:ident <;> simp only [ordinal, tscPP, refuse] <;>
+             (repeat' split) <;> simp_all [(commit_mem _ _).1, ppLifetime, (invalidateSaved_mem $s).1, clearCommon]))
+
+/-- **the in-memory permanent flags change only by the listed commands** (and by a power cycle, which reloads the stored
+    copy): every other operation — Startup of any type, SaveState, suspend/resume, probes, and each command as far as the
+    OTHER flags are concerned — leaves them alone -/
+theorem disable_changes_only_by (s : St) (op : Op) (h : (step s op).1.mem.disable ≠ s.mem.disable) :
+    (∃ hw, op = .physicalEnable hw) ∨ (∃ hw, op = .physicalDisable hw) ∨ (∃ ok v, op = .ownerSetDisable ok v) ∨
+    (∃ ok, op = .ownerClear ok) ∨ (∃ hw, op = .forceClear hw) ∨ op = .powerCycle := by
+  revert h; perm_only_by s op
+
+theorem owner_changes_only_by (s : St) (op : Op) (h : (step s op).1.mem.owner ≠ s.mem.owner) :
+    (∃ ok, op = .takeOwnership ok) ∨ (∃ ok, op = .ownerClear ok) ∨ (∃ hw, op = .forceClear hw) ∨ op = .powerCycle := by
+  revert h; perm_only_by s op
+
+theorem ownership_changes_only_by (s : St) (op : Op) (h : (step s op).1.mem.ownership ≠ s.mem.ownership) :
+    (∃ hw v, op = .setOwnerInstall hw v) ∨ (∃ ok, op = .ownerClear ok) ∨ (∃ hw, op = .forceClear hw) ∨ op = .powerCycle := by
+  revert h; perm_only_by s op
+
+theorem deactivated_changes_only_by (s : St) (op : Op) (h : (step s op).1.mem.deactivated ≠ s.mem.deactivated) :
+    (∃ hw v, op = .physicalSetDeactivated hw v) ∨ (∃ ok, op = .ownerClear ok) ∨ (∃ hw, op = .forceClear hw) ∨ op = .powerCycle := by
+  revert h; perm_only_by s op
+
+theorem disableOwnerClear_changes_only_by (s : St) (op : Op) (h : (step s op).1.mem.disableOwnerClear ≠ s.mem.disableOwnerClear) :
+    (∃ ok, op = .disableOwnerClear ok) ∨ (∃ ok, op = .ownerClear ok) ∨ (∃ hw, op = .forceClear hw) ∨ op = .powerCycle := by
+  revert h; perm_only_by s op
+
+
+/-! ### the clear commands -/
+
+/-- **TPM_OwnerClear is refused under disableOwnerClear**, whatever the authorization, and changes nothing -/
+theorem ownerClear_refused_when_disabled (s : St) (ok : Bool) (h : s.mem.disableOwnerClear = true) :
+    (step s (.ownerClear ok)).2.rc ≠ 0 ∧ (step s (.ownerClear ok)).1 = invalidateSaved s := by
+  have hr : (step s (.ownerClear ok)).2.rc ≠ 0 := by
+    simp only [step, audit, ordinal, refuse, (invalidateSaved_mem s).1, h]
+    (repeat' split) <;> simp_all [TPM_AUTHFAIL, TPM_CLEAR_DISABLED]
+  exact ⟨hr, refused_changes_nothing s _ rfl hr⟩
+
+/-- **TPM_ForceClear is refused under disableForceClear and without physical presence** -/
+theorem forceClear_refused (s : St) (hw : Bool) (h : s.sc.disableForceClear = true ∨ presence s hw = false) :
+    (step s (.forceClear hw)).2.rc ≠ 0 ∧ (step s (.forceClear hw)).1 = invalidateSaved s := by
+  have hp : presence (invalidateSaved s) hw = presence s hw := by
+    simp [presence, (invalidateSaved_mem s).1, (invalidateSaved_mem s).2.1]
+  have hr : (step s (.forceClear hw)).2.rc ≠ 0 := by
+    simp only [step, audit, ordinal, refuse, hp, (invalidateSaved_mem s).2.1]
+    rcases h with h | h <;> (repeat' split) <;> simp_all [TPM_BAD_PRESENCE, TPM_CLEAR_DISABLED]
+  exact ⟨hr, refused_changes_nothing s _ rfl hr⟩
+
+/-- **what a successful clear resets**: no owner, disabled, deactivated (permanent copy), ownership allowed, disableOwnerClear
+    FALSE — in memory AND in storage when the command answers; the physical-presence enables and the EK are untouched -/
+theorem clear_resets (s : St) (op : Op) (hop : (∃ ok, op = .ownerClear ok) ∨ (∃ hw, op = .forceClear hw))
+    (hok : (step s op).2.rc = 0) :
+    (step s op).1.mem = clearCommon s.mem ∧ (step s op).1.sto = clearCommon s.mem ∧ (step s op).2.stored = true := by
+  revert hok
+  rcases hop with ⟨ok, rfl⟩ | ⟨hw, rfl⟩ <;>
+    simp only [step, audit, ordinal, refuse, (invalidateSaved_mem s).1] <;>
+    (repeat' split) <;> simp_all [TPM_AUTHFAIL, TPM_BAD_PRESENCE, TPM_CLEAR_DISABLED]
+
+theorem clearCommon_flags (p : Perm) : (clearCommon p).owner = false ∧ (clearCommon p).disable = true ∧
+    (clearCommon p).deactivated = true ∧ (clearCommon p).ownership = true ∧ (clearCommon p).disableOwnerClear = false ∧
+    (clearCommon p).ppCmd = p.ppCmd ∧ (clearCommon p).ppHw = p.ppHw ∧ (clearCommon p).ppLife = p.ppLife ∧ (clearCommon p).ek = p.ek :=
+  ⟨rfl, rfl, rfl, rfl, rfl, rfl, rfl, rfl, rfl⟩
+
+/-! ### what a disabled / deactivated TPM refuses and what it lets through -/
+
+/-- the state in which ordinals are processed at all -/
+def Running (s : St) : Prop := s.failed = false ∧ s.postInit = false
+
+/-- **a disabled TPM answers TPM_DISABLED, a deactivated one TPM_DEACTIVATED, to the protected ordinals** (PCRRead, GetRandom,
+    GetTicks: TPM_CHECK_ALLOW_NO_OWNER) and **still answers** Extend, OIAP, NV_ReadValue of the DIR and GetCapability -/
+theorem gated_probes (s : St) (hr : Running s) :
+    (∀ p, p = Probe.pcrRead ∨ p = Probe.getRandom ∨ p = Probe.getTicks →
+      (step s (.probe p)).2.rc = if s.mem.disable then TPM_DISABLED else if s.sc.deactivated then TPM_DEACTIVATED else 0) ∧
+    (∀ p, p = Probe.extend ∨ p = Probe.oiap ∨ p = Probe.nvReadDir ∨ p = Probe.getCapFlags → (step s (.probe p)).2.rc = 0) := by
+  obtain ⟨hf, hp⟩ := hr
+  constructor
+  · intro p hp'
+    rcases hp' with rfl | rfl | rfl <;>
+      simp [step, audit, audited, Op.ordinal?, ordinal, checkState, Probe.gate, gateAllowNoOwner, (invalidateSaved_mem s).1,
+        (invalidateSaved_mem s).2.1, (invalidateSaved_mem s).2.2.2, hf, hp] <;> (repeat' split) <;> simp_all
+  · intro p hp'
+    rcases hp' with rfl | rfl | rfl | rfl <;>
+      simp [step, audit, audited, Op.ordinal?, ordinal, checkState, Probe.gate, gateNone, (invalidateSaved_mem s).2.2.2, hf, hp]
+
+/-- the commands that lead out of the disabled state are themselves available in it: PhysicalEnable needs only physical
+    presence, OwnerSetDisable only the owner's authorization -/
+theorem enable_available_when_disabled (s : St) (hr : Running s) (hw : Bool) (hpp : presence s hw = true) :
+    (step s (.physicalEnable hw)).2.rc = 0 ∧ (step s (.physicalEnable hw)).1.mem.disable = false := by
+  obtain ⟨hf, hp⟩ := hr
+  have hp' : presence (invalidateSaved s) hw = true := by
+    simpa [presence, (invalidateSaved_mem s).1, (invalidateSaved_mem s).2.1] using hpp
+  have hcs : checkState (invalidateSaved s) gateNone = 0 := by
+    simp [checkState, gateNone, (invalidateSaved_mem s).2.2.2, hf, hp]
+  constructor
+  · rw [step_ordinal s _ rfl, audit_rc]; simp [ordinal, hcs, hp', commit_rc]
+  · rw [step_mem]; simp [ordinal, hcs, hp', (commit_mem _ _).1]
+
+/-- **TPM_TakeOwnership succeeds exactly when** the TPM is started and not failed, enabled, has no owner, ownership is
+    allowed, an endorsement key exists and the HMAC under the new owner secret is correct -/
+theorem takeOwnership_iff (s : St) (ok : Bool) :
+    (step s (.takeOwnership ok)).2.rc = 0 ↔
+      (s.failed = false ∧ s.postInit = false ∧ s.mem.disable = false ∧ s.mem.owner = false ∧ s.mem.ownership = true ∧
+       s.mem.ek = true ∧ ok = true) := by
+  simp only [step, audit, ordinal, checkState, refuse, (invalidateSaved_mem s).1, (invalidateSaved_mem s).2.2.2]
+  constructor
+  · intro h; revert h
+    (repeat' split) <;> simp_all [TPM_FAILEDSELFTEST, TPM_INVALID_POSTINIT, TPM_DISABLED, TPM_OWNER_SET, TPM_INSTALL_DISABLED,
+      TPM_NO_ENDORSEMENT, TPM_AUTHFAIL]
+  · intro ⟨h1, h2, h3, h4, h5, h6, h7⟩
+    simp [h1, h2, h3, h4, h5, h6, h7]
+    (repeat' split) <;> simp_all
+
+/-- a wrong HMAC never changes a flag: every owner-authorized command with `ok = false` is refused -/
+theorem wrong_hmac_refused (s : St) (v : Bool) :
+    (step s (.ownerSetDisable false v)).2.rc ≠ 0 ∧ (step s (.takeOwnership false)).2.rc ≠ 0 ∧
+    (step s (.ownerClear false)).2.rc ≠ 0 ∧ (step s (.disableOwnerClear false)).2.rc ≠ 0 := by
+  refine ⟨?_, ?_, ?_, ?_⟩ <;>
+    simp only [step, audit, ordinal, refuse] <;> (repeat' split) <;>
+    simp_all [TPM_AUTHFAIL, TPM_OWNER_SET, TPM_INSTALL_DISABLED, TPM_NO_ENDORSEMENT]
+
+/-! ### restarts -/
+
+/-- memory and storage hold the same permanent flags -/
+def Synced (s : St) : Prop := s.mem = s.sto
+
+theorem synced_fresh : Synced fresh := rfl
+
+theorem commit_synced (s : St) (p : Perm) (h : Synced s) : Synced (commit s p).1 := by
+  unfold commit Synced at *; split <;> simp_all
+
+/-- **write-through as an invariant**: after ANY history from a brand new TPM the stored permanent flags are the ones in
+    memory — every command that changes a permanent flag stores it before it answers -/
+theorem synced_step (s : St) (op : Op) (h : Synced s) : Synced (step s op).1 := by
+  have hi : Synced (invalidateSaved s) := by
+    unfold Synced; rw [(invalidateSaved_mem s).1, (invalidateSaved_mem s).2.2.1]; exact h
+  have ha : ∀ r : St × Obs, Synced r.1 → Synced (audit r op).1 := by
+    intro r hr; unfold audit; split
+    · rfl
+    · exact hr
+  cases op
+  case startup t => simp only [step, startup]; (repeat' split) <;> exact h
+  case powerCycle => rfl
+  case resume => rfl
+  all_goals
+    simp only [step]
+    apply ha
+    simp only [ordinal, tscPP, refuse]
+    (repeat' split) <;> first | exact hi | exact commit_synced _ _ hi | rfl
+
+theorem synced_run (ops : List Op) (s : St) (h : Synced s) : Synced (run s ops) := by
+  induction ops generalizing s with
+  | nil => exact h
+  | cons op ops ih => exact ih _ (synced_step s op h)
+
+/-- **permanent flags survive every kind of restart**: power cycle, suspend/resume, Startup of any type and TPM_SaveState
+    leave disable, ownership, deactivated, disableOwnerClear, the physical-presence enables, the owner and the EK as they are -/
+theorem permanent_survives_restart (s : St) (h : Synced s) (t : Nat) :
+    (powerCycle s).mem = s.mem ∧ (resume s).mem = s.mem ∧ (startup s t).1.mem = s.mem ∧ (step s .saveState).1.mem = s.mem := by
+  refine ⟨h.symm, rfl, ?_, ?_⟩
+  · simp only [startup]; (repeat' split) <;> rfl
+  · rw [step_mem]; simp only [ordinal, refuse]; (repeat' split) <;> simp [(invalidateSaved_mem s).1]
+
+/-- **the ST_CLEAR flags are reset exactly at TPM_Startup(ST_CLEAR)**: after a power cycle and Startup(ST_CLEAR) they have their
+    defaults, `deactivated` taking the value of the permanent flag; suspend/resume keeps them; Startup(ST_STATE) after
+    TPM_SaveState brings them back; Startup(ST_DEACTIVATED) starts deactivated -/
+theorem stclear_at_startup (s : St) :
+    (startup (powerCycle s) TPM_ST_CLEAR).1.sc = { deactivated := s.sto.deactivated } ∧
+    (startup (powerCycle s) TPM_ST_DEACTIVATED).1.sc = { deactivated := true } ∧
+    (resume s).sc = s.sc ∧
+    (checkState s gateNone = 0 → (startup (powerCycle (step s .saveState).1) TPM_ST_STATE).1.sc = s.sc ∧
+      (startup (powerCycle (step s .saveState).1) TPM_ST_STATE).2.rc = 0) := by
+  refine ⟨by simp [startup, powerCycle, TPM_ST_CLEAR], by simp [startup, powerCycle, TPM_ST_DEACTIVATED, TPM_ST_CLEAR, TPM_ST_STATE], rfl, ?_⟩
+  intro hcs
+  have hcs' : checkState (invalidateSaved s) gateNone = 0 := by rw [checkState_invalidateSaved]; exact hcs
+  simp [step, audit, audited, Op.ordinal?, auditDefaultOrdinals, ordinal, hcs', startup, powerCycle, TPM_ST_STATE, TPM_ST_CLEAR,
+    (invalidateSaved_mem s).2.1]
+
+
+/-- the ST_CLEAR flags `deactivated` and `disableForceClear` change only by SetTempDeactivated / DisableForceClear, by Startup
+    and by a power cycle -/
+theorem stclear_changes_only_by (s : St) (op : Op)
+    (h : (step s op).1.sc.deactivated ≠ s.sc.deactivated ∨ (step s op).1.sc.disableForceClear ≠ s.sc.disableForceClear) :
+    (∃ hw, op = .setTempDeactivated hw) ∨ op = .disableForceClear ∨ (∃ t, op = .startup t) ∨ op = .powerCycle := by
+  cases op
+  case startup t => exact Or.inr (Or.inr (Or.inl ⟨t, rfl⟩))
+  case powerCycle => exact Or.inr (Or.inr (Or.inr rfl))
+  case resume => simp [step, resume] at h
+  all_goals
+    rw [step_ordinal s _ rfl, (audit_mem _ _).2.1, (audit_mem _ _).2.2.1] at h
+    revert h
+    simp only [ordinal, tscPP, refuse]
+    (repeat' split) <;> simp_all [(commit_mem _ _).2, ppAssert, (invalidateSaved_mem s).2.1, clearStClear]
+
+end Fl
+
+/-! ## OIAP / OSAP authorization: `Model.Tpm12.Auth` -/
+namespace Hmac
+open TpmVerif TpmVerif.Model TpmVerif.Model.Tpm12.Auth
+
+/-- **the acceptance condition, exactly**: the TPM accepts an authorized request iff the HMAC it received is
+    HMAC-SHA1(its key, SHA-1(ordinal ‖ parameters as received) ‖ its nonceEven ‖ nonceOdd ‖ continueAuthSession) -/
+theorem accepts_iff (r : Request) :
+    accepts r = true ↔ r.mac = hmac r.key (Sha1.sha1 r.pd ++ r.nonceEven ++ r.nonceOdd ++ [contByte r.cont]) := by
+  unfold accepts authMac authMsg
+  constructor
+  · intro h; exact (beq_iff_eq.mp h).symm
+  · intro h; rw [h]; exact beq_self_eq_true _
+
+/-- the OSAP shared secret is HMAC-SHA1(entity secret, nonceEvenOSAP ‖ nonceOddOSAP) -/
+theorem osapSecret_eq (es neo noo : Bytes) : osapSecret es neo noo = hmac es (neo ++ noo) := rfl
+
+/-- the response HMAC is the same function over SHA-1(returnCode ‖ ordinal ‖ output parameters) and the NEW nonceEven -/
+theorem responseMac_eq (key rpd ne no : Bytes) (c : Bool) :
+    responseMac key rpd ne no c = hmac key (Sha1.sha1 rpd ++ ne ++ no ++ [contByte c]) := rfl
+
+theorem contByte_inj (a b : Bool) (h : contByte a = contByte b) : a = b := by
+  cases a <;> cases b <;> simp_all [contByte]
+
+theorem append_inj20 (a b c d : Bytes) (ha : a.length = 20) (hc : c.length = 20) (h : a ++ b = c ++ d) : a = c ∧ b = d :=
+  List.append_inj h (by rw [ha, hc])
+
+/-- **the HMAC input is injective** in the parameter digest, both nonces and the continue flag (20-byte digests and nonces):
+    two requests with the same HMAC input agree on all four, so changing any one of them changes the input -/
+theorem authMsg_inj (d e o d' e' o' : Bytes) (c c' : Bool)
+    (hd : d.length = 20) (he : e.length = 20) (ho : o.length = 20) (hd' : d'.length = 20) (he' : e'.length = 20) (ho' : o'.length = 20)
+    (h : authMsg d e o c = authMsg d' e' o' c') : d = d' ∧ e = e' ∧ o = o' ∧ c = c' := by
+  unfold authMsg at h
+  simp only [List.append_assoc] at h
+  obtain ⟨h1, h⟩ := append_inj20 _ _ _ _ hd hd' h
+  obtain ⟨h2, h⟩ := append_inj20 _ _ _ _ he he' h
+  obtain ⟨h3, h⟩ := append_inj20 _ _ _ _ ho ho' h
+  refine ⟨h1, h2, h3, ?_⟩
+  simp only [List.cons.injEq, and_true] at h
+  exact contByte_inj _ _ h
+
+/-- each single-field corruption the client can produce changes the HMAC input: a stale nonceEven, another nonceOdd, a flipped
+    continueAuthSession, other parameters (another parameter digest) -/
+theorem corruption_changes_input (d e o : Bytes) (c : Bool) (hd : d.length = 20) (he : e.length = 20) (ho : o.length = 20) :
+    authMsg d e o c ≠ authMsg d e o (!c) ∧
+    (∀ e', e'.length = 20 → e' ≠ e → authMsg d e' o c ≠ authMsg d e o c) ∧
+    (∀ d', d'.length = 20 → d' ≠ d → authMsg d' e o c ≠ authMsg d e o c) := by
+  refine ⟨?_, ?_, ?_⟩
+  · intro h; have := (authMsg_inj _ _ _ _ _ _ _ _ hd he ho hd he ho h).2.2.2; cases c <;> simp at this
+  · intro e' he' hne h; exact hne (authMsg_inj _ _ _ _ _ _ _ _ hd he' ho hd he ho h).2.1
+  · intro d' hd' hne h; exact hne (authMsg_inj _ _ _ _ _ _ _ _ hd' he ho hd he ho h).1
+
+/-- SHA-1 digests are 20 bytes: the parameter digest always has the length `authMsg_inj` asks for -/
+theorem hmac_key_pad_length (key : Bytes) (pad : UInt8) (h : key.length ≤ blockSize) : (padKey key pad).length = blockSize := by
+  unfold padKey
+  have : ¬ key.length > blockSize := by omega
+  simp [this]; omega
+
+/-- RFC 2202 test case 2 for HMAC-SHA1 (a test of the definition, not a theorem about the code) -/
+example : hmac (Sha1.ofString "Jefe") (Sha1.ofString "what do ya want for nothing?") =
+    [0xef, 0xfc, 0xdf, 0x6a, 0xe5, 0xeb, 0x2f, 0xa2, 0xd2, 0x74, 0x16, 0xd5, 0xf1, 0x84, 0xdf, 0x9c, 0x25, 0x9a, 0x7c, 0x79] := by
+  decide +kernel
+
+end Hmac
 end TpmVerif.Props.C20
